@@ -392,12 +392,7 @@ class FileStoreRequestTlv(FileStoreRequestBase, AbstractTlvBase):
 
     @classmethod
     def unpack(cls, data: bytes) -> FileStoreRequestTlv:
-        if len(data) < 2:
-            raise BytesTooShortError(2, len(data))
-        cls._check_raw_tlv_field(data[0], FileStoreRequestTlv.TLV_TYPE)
-        filestore_req = cls.__empty()
-        cls._set_fields(filestore_req, data[2:])
-        return filestore_req
+        return cls.from_tlv(CfdpTlv.unpack(data))
 
     @classmethod
     def from_tlv(cls, cfdp_tlv: CfdpTlv) -> FileStoreRequestTlv:
@@ -476,12 +471,7 @@ class FileStoreResponseTlv(FileStoreRequestBase, AbstractTlvBase):
 
     @classmethod
     def unpack(cls, data: bytes) -> FileStoreResponseTlv:
-        if len(data) < 2:
-            raise BytesTooShortError(2, len(data))
-        cls._check_raw_tlv_field(data[0], FileStoreResponseTlv.TLV_TYPE)
-        filestore_reply = cls.__empty()
-        cls._set_fields(filestore_reply, data[2:])
-        return filestore_reply
+        return cls.from_tlv(CfdpTlv.unpack(data))
 
     @classmethod
     def from_tlv(cls, cfdp_tlv: CfdpTlv) -> FileStoreResponseTlv:
